@@ -30,6 +30,5 @@ NOT_APPLICABLE = {
 
 NOT_BUILT = {
  "C04": "contract designed (DESIGN section 4); the C front end (clang JSON AST interpreter) is not built",
- "C12": "contract designed (DESIGN section 4); props/C12.py is work in progress and not registered: its alarms on the unchanged tree were triaged as errors of the check (programs outside the non-aliasing proviso), and the proviso-complete version is too slow to use (DESIGN 12.3)",
  "C24": "contract designed (DESIGN section 4); the C front end (clang JSON AST interpreter) is not built, vm_mngr.c is out of the Python verifier's reach",
 }
